@@ -499,3 +499,45 @@ pub fn alias_family(max_k: usize) -> Vec<(Ty, String, bool)> {
     }
     out
 }
+
+// G3b: the nested-group family. Two functions f and g of one group (either order; f recursive, or
+// referring forward to g, or mutually recursive with it), a definition group nested in f's body
+// (with the recursive call in the nested group's body, or in its definitions, or capturing the
+// parameter in a local function), a result definition that is itself a nested group, and three
+// bodies. Fully annotated; the expected result is whatever the reference interpreter computes.
+pub fn nested_family() -> Vec<String> {
+    let fbodies = [
+        "g (g x)",
+        "if x <= 0 then 0 else x + f (x - 1)",
+        "(m : int = x - 1; if x <= 0 then 0 else x + f m)",
+        "(m : int = g x; n : int = m * 2; n - x)",
+        "if x <= 0 then 0 else (m : int = f (x - 1); m + g x)",
+        "(h : (int -> int) = (z : int) => z + x; h (g x))",
+        "(m : int = x - 1; n : int = g m; if x <= 0 then n else f m + n)",
+    ];
+    let gbodies = ["y + 1", "y * 2", "if y <= 0 then 0 else f (y - 1)"];
+    let results = ["", "r : int = f 3", "r : int = (s : int = 2; f s)", "r : int = (s : int = 2; t : int = f s; t + s)"];
+    let bodies = ["r", "f 2 + r", "(u : int = r; u + f 1)"];
+    let mut out = vec![];
+    for fb in fbodies {
+        for gb in gbodies {
+            for f_first in [true, false] {
+                for res in results {
+                    for body in bodies {
+                        let fd = format!("f : (int -> int) = (x : int) => {fb}");
+                        let gd = format!("g : (int -> int) = (y : int) => {gb}");
+                        let mut defs = if f_first { vec![fd, gd] } else { vec![gd, fd] };
+                        let body = if res.is_empty() { body.replace('r', "f 3") } else { body.to_owned() };
+                        if !res.is_empty() {
+                            defs.push(res.to_owned());
+                        }
+                        out.push(format!("{}; {body}", defs.join("; ")));
+                    }
+                }
+            }
+        }
+    }
+    out.sort();
+    out.dedup();
+    out
+}
